@@ -37,3 +37,50 @@ encode.CUSTOM_CLASSES.append(FwdSchema)
 
 def wrap(inner):
     return FwdSchema()(inner)
+
+
+class DeckSchema(CustomSchema[Props]):
+    """a custom type whose generation uses every primitive of the generator's Random, shuffle_list included"""
+    def __represent__(self, visitor, *, indent: int = 0, **kwargs: Any) -> str:
+        return "deck"
+
+    def __generate__(self, visitor, **kwargs: Any) -> Any:
+        r = visitor.random
+        cards = list(range(12))
+        r.shuffle_list(cards)
+        return [cards, r.random_int(0, 9), r.random_choice("abc"), r.random_str(4, "xyz"), r.random_float(0.0, 1.0, 3)]
+
+    def __validate__(self, visitor, *, value: Any = Nil, path=Nil, **kwargs: Any):
+        from d42 import schema
+        return schema.list.__accept__(visitor, value=value, path=path, **kwargs)
+
+    def __substitute__(self, visitor, *, value: Any = Nil, **kwargs: Any):
+        return self
+
+
+class OptProps(Props):
+    @property
+    def word(self):
+        return self.get("word")
+
+
+class OptSchema(CustomSchema[OptProps]):
+    """a custom type whose verdict depends on a keyword option of validate(): `ignore_case=True`"""
+    def __call__(self, word):
+        return self.__class__(self.props.update(word=word))
+
+    def __represent__(self, visitor, *, indent: int = 0, **kwargs: Any) -> str:
+        return "opt(%r)" % (self.props.word,)
+
+    def __generate__(self, visitor, **kwargs: Any) -> Any:
+        return self.props.word
+
+    def __validate__(self, visitor, *, value: Any = Nil, path=Nil, ignore_case: bool = False, **kwargs: Any):
+        from d42 import schema
+        w = self.props.word
+        if ignore_case and isinstance(value, str):
+            return schema.str(w.lower()).__accept__(visitor, value=value.lower(), path=path, **kwargs)
+        return schema.str(w).__accept__(visitor, value=value, path=path, **kwargs)
+
+    def __substitute__(self, visitor, *, value: Any = Nil, **kwargs: Any):
+        return self
